@@ -10,6 +10,7 @@ def cfg_view(op, impl):
     t = op.split(' ')[0]
     if t in ('probe', 'rt', 'utf', 'cmp', 'idnahyp'): return None
     s = HIDDEN.sub('', impl)
+    s = re.sub(r' rpe=\S+', '', s)
     s = re.sub(r' so=\d', '', s)
     s = re.sub(r'\bcp=\d ', '', s)
     if t != 'sp' and t != 'psp': s = re.sub(r' sp=\S+', '', s)
@@ -172,6 +173,20 @@ def faults(tier, seed, runner, lines):
     for l in out:
         if l.startswith('FAULT-VIOLATION') and len(viol) < 4:
             viol.append(('fault', ['# ' + l], l, True))
+    # the raw representation after every injected failure of single setter calls must be a state the exception-aware
+    # operational model (Impl/SetRepExc.lean, theorems Props/C20b) can be left in
+    fs = [l[len('FAILSTATE '):] for l in out if l.startswith('FAILSTATE ')]
+    if fs:
+        q = subprocess.run([lean_driver(), 'failstates'], input='\n'.join(fs) + '\n', stdout=subprocess.PIPE, stderr=subprocess.PIPE, text=True, timeout=1800)
+        ans = [a for a in q.stdout.split('\n') if a]
+        cov['post_failure_states_replayed'] = len(fs)
+        if q.returncode != 0 or len(ans) != len(fs):
+            viol.append(('fault', ['# driver failstates'], 'the model driver failed on the post-failure states: rc=%s %d/%d answers\n%s' % (q.returncode, len(ans), len(fs), q.stderr[-1500:]), False))
+        else:
+            bad = [(l, a) for l, a in zip(fs, ans) if a != 'ok']
+            cov['post_failure_states_not_in_model'] = len(bad)
+            for l, a in bad[:2]:
+                viol.append(('fault', ['# FAILSTATE ' + l], 'after an injected allocation failure the object is in a state the exception-aware operational model cannot be left in (the order of mutations and throwing operations changed):\n%s\n%s' % (l[:1500], a[:600]), False))
     m = re.search(r'SUMMARY operations=(\d+) failure_points=(\d+) violations=(\d+)', p.stdout)
     if m: cov.update({'operations': int(m.group(1)), 'failure_points': int(m.group(2)), 'violations': int(m.group(3))})
     if p.returncode != 0 and not viol:
@@ -344,3 +359,41 @@ def _wpt(which, runner):
 def wpt(tier, seed, runner, lines): return _wpt('wpt', runner)
 def wptset(tier, seed, runner, lines): return _wpt('wptset', runner)
 def wptform(tier, seed, runner, lines): return _wpt('wptform', runner)
+
+
+def ownreplay(tier, seed, runner, lines):
+    """C06: the pointer-graph model (Impl/Own.lean: every url_search_params object with its back pointer, every url with the
+    params object it holds; theorems Props/C06b) against the real objects. The model generates random histories over
+    all special member functions of both classes (construct / copy / move / safe_assign / swap / destroy, lazy
+    search_params(), the && overload, parse, setters, list edits) and, after every operation, the expected graph:
+    which params object each url holds, which url each params object points back to, sorted flags, serializations.
+    harness/own_replay.cpp replays them on the library (ASan/UBSan, hooks) and compares after every operation."""
+    cov = {}
+    viol = []
+    exe, log = build_harness('asan', harness='own_replay.cpp', opt='-O0')
+    if exe is None:
+        return {'coverage': cov, 'violations': [('build', ['# own_replay.cpp'], 'the ownership replay harness does not build:\n' + log[-2500:], False)]}
+    gen = os.path.join(LEAN, '.lake', 'build', 'bin', 'owngen')
+    runs, steps = (150, 80) if tier == 'quick' else (1500, 120)
+    g = subprocess.run([gen, str(seed), str(runs), str(steps)], stdout=subprocess.PIPE, stderr=subprocess.PIPE, text=True, timeout=1800)
+    if g.returncode != 0 or 'MODELCHECK true' not in g.stdout:
+        return {'coverage': cov, 'violations': [('own', ['# owngen'], 'the history generator failed or the model left its own invariant: rc=%s %s %s' % (g.returncode, g.stdout[-300:], g.stderr[-1500:]), False)]}
+    hist = g.stdout
+    e = dict(os.environ); e['ASAN_OPTIONS'] = 'detect_leaks=1:abort_on_error=0'
+    p = subprocess.run([exe], input=hist, stdout=subprocess.PIPE, stderr=subprocess.PIPE, text=True, env=e, timeout=1800)
+    m = re.search(r'ops=(\d+) mismatching states=(\d+)', p.stdout)
+    cov['histories'] = runs
+    if m: cov.update({'operations': int(m.group(1)), 'mismatching_states': int(m.group(2))})
+    if (m and int(m.group(2)) > 0) or p.returncode != 0 or not m:
+        # the first mismatch with its history (from the last RESET)
+        first = p.stdout.split('MISMATCH after ')[1].split('\n')[0] if 'MISMATCH after ' in p.stdout else None
+        rep = []
+        if first:
+            L = hist.split('\n')
+            idx = next((i for i, l in enumerate(L) if l == first), None)
+            if idx is not None:
+                st = max(i for i in range(idx + 1) if L[i] == 'RESET')
+                en = next(i for i in range(idx, len(L)) if L[i] == 'E')
+                rep = L[st:en + 1]
+        viol.append(('own', ['# ' + l for l in rep[-400:]] or ['# own_replay'], 'own\nthe pointer graph of the real objects differs from the model (rc=%s)\n%s\n%s' % (p.returncode, p.stdout[:3000], p.stderr[-2500:]), bool(first) or p.returncode != 0))
+    return {'coverage': cov, 'violations': viol}
